@@ -1028,12 +1028,16 @@ def main(ctx):
     def h_do(h, kind, op):
         if op[0] == "ids":
             return [h.lookup_id(WRA, WDEC)]
+        if op[0] == "badids":
+            return [h.lookup_id(WRA, WDEC[:3])]         # mismatched lengths: must raise
         if op[0] == "intersect":
             return [np.sort(h.intersect(10.0, 20.0, op[1], inclusive=op[2]))]
         return list(h.bincount(0.01, 10.0, 3, WRA, WDEC, WRA2, WDEC2, getbins=False)) if op[0] == "bincount" else None
 
     def h_check(kind, op, res):
         depth = int(kind[1:])
+        if op[0] == "badids":
+            return "lookup_id with ra and dec of different length was accepted"
         if op[0] == "ids":
             ids = np.asarray(res[0])
             if ids.shape != (5,) or ids.min() < 8 * 4 ** depth or ids.max() >= 16 * 4 ** depth:
@@ -1047,5 +1051,5 @@ def main(ctx):
         return [np.asarray(v) for v in r]
 
     object_world(ctx, "several-objects", ["d3", "d6", "d9"], lambda kind: htm.HTM(int(kind[1:])),
-                 [("ids",), ("intersect", 1.0, True), ("intersect", 1.0, False), ("bincount",)], h_do, h_modules,
+                 [("ids",), ("intersect", 1.0, True), ("intersect", 1.0, False), ("bincount",), ("badids",)], h_do, h_modules,
                  depth=ctx.pick(4, 5), check=h_check, state=lambda h: getattr(h, "__dict__", {}))
